@@ -35,6 +35,10 @@ def run_one(job, helper):
             fn = _live(job)
             ir = P.function(fn) if job["form"] == "function" else P.class_(fn)
             out = json.dumps(irutil.ir_to_json(ir), sort_keys=False, default=repr)
+        elif job["kind"] == "hand":
+            node = ast.parse(job["src"]).body[0]
+            ir = {"argparse": P.argparse_ast, "class": P.class_, "function": P.function}[job["from"]](node)
+            out = kinds.to_source(job["to"], kinds.emit(job["to"], ir, {}))
         elif job["kind"] == "emit":
             ir = helper.py_ir(job["ir"])
             out = kinds.to_source(job["to"], kinds.emit(job["to"], ir, job.get("opts", {})))
